@@ -1,4 +1,5 @@
 import os
+import collections
 import warnings
 import datetime
 
@@ -146,8 +147,7 @@ class load(DataStreamProcessor):
             for resource_descriptor in datapackage_descriptor['resources']:
                 if resource_matcher.match(resource_descriptor['name']):
                     self.resource_descriptors.append(resource_descriptor)
-            self.iterators = (resource for resource, descriptor in zip(resource_iterator, resources)
-                              if resource_matcher.match(descriptor['name']))
+            self.iterators = self.select_iterators(resource_iterator, resources, resource_matcher)
 
         # If load_source is string:
         else:
@@ -227,6 +227,15 @@ class load(DataStreamProcessor):
                 self.iterators.append(stream.iter(keyed=True))
         dp.descriptor.setdefault('resources', []).extend(self.resource_descriptors)
         return dp
+
+    @staticmethod
+    def select_iterators(resource_iterator, resources, resource_matcher):
+        for resource, descriptor in zip(resource_iterator, resources):
+            if resource_matcher.match(descriptor['name']):
+                yield resource
+            else:
+                # skipped resources must still be consumed (sequential sources)
+                collections.deque(resource, maxlen=0)
 
     def stripper(self, iterator):
         whitespace = set(' \t\n\r')
